@@ -176,7 +176,17 @@ def main():
     srcs = sources()
     rng = random.Random(int(os.environ.get("VERIF_SEED", "1")))
     jobs = []
-    for prop in props:
+    if "--from" in sys.argv:  # re-run the problem variants listed in a previous report
+        props = []
+        for l in open(sys.argv[sys.argv.index("--from") + 1]):
+            w = l.split()
+            if len(w) > 2 and w[2] in ("FALSE-ALARM", "cannot-decide", "CRASH"):
+                sp = w[1].split(":")
+                spec = (sp[0],) if len(sp) == 1 else (sp[0], sp[1], int(sp[2]), sp[3], sp[4])
+                jobs.append((w[0], spec))
+                if w[0] not in props:
+                    props.append(w[0])
+    for prop in ([] if jobs else props):
         code, msg, consulted = run(prop, None)
         if code != 0:
             print(f"{prop}: unchanged tree gives {code}: {msg}")
